@@ -461,6 +461,7 @@ func runC08(env *Env) {
 	}
 	propertyPerRequest(env, rep, "C08-results", "C08-results")
 	threeTokensOneTask(env, rep, "C08-first-wins", 4)
+	implicitEndTask(env, rep, "C08-results")
 	env.WriteCases(rep, "_modes", "Corr.C08corr", "list nat * nat * nat * nat", citems, "c08_modes_mismatches")
 	env.WriteReport(rep)
 }
@@ -564,6 +565,117 @@ func threeTokensOneTask(env *Env, rep *Report, key string, rounds int) {
 		}
 		if problem != "" {
 			rep.Violate(key, cs, problem+"; log: "+logString(in.Log()))
+		}
+		in.Close()
+	}
+}
+
+// implicitEndTask: a task without outgoing sequence flow ends its token; its answer counts like any other: the declared
+// results are stored (also when the task is the last one inside a sub-process and a gateway behind the sub-process
+// reads them), an error is traced and a retry handler is obeyed.
+func implicitEndTask(env *Env, rep *Report, key string) {
+	fail := func(cs, msg string, in *Inst) { rep.Violate(key, cs, msg+"; log: "+logString(in.Log())) }
+	{
+		cs := "start -> A -> B, B without outgoing flow, answered with its declared result y = 2"
+		env.Current(cs)
+		p := &Prog{}
+		p.Node("start", "start")
+		p.Node("task", "A")
+		b := p.Node("task", "B")
+		b.Results = []string{"y"}
+		p.Flow("start", "A", "")
+		p.Flow("A", "B", "")
+		defs, err := ParseDefs(p.XML(""))
+		must(err)
+		in, err := StartInst(defs, InstOpt{Vars: map[string]any{"y": 1}})
+		must(err)
+		rep.Evaluations++
+		rep.Nontrivial++
+		rep.Count("implicit_end_task")
+		if !in.Answer("A", tmoStep) || !in.Answer("B", tmoStep, bpmn.DoWithResults(map[string]any{"y": 2})) {
+			fail(cs, "A or B not requested", in)
+		} else if !in.WaitCease(tmoStep) {
+			fail(cs, "both tasks answered, the instance did not complete", in)
+		} else if v, _ := in.P.Locator().GetVariable("y"); fmt.Sprint(v) != "2" {
+			fail(cs, fmt.Sprintf("y = %v after B's answer, expected 2", v), in)
+		}
+		in.Close()
+	}
+	{
+		cs := "sub-process [T1 -> T2, T2 without outgoing flow, result ok] -> exclusive gateway routing on ok"
+		env.Current(cs)
+		p := &Prog{}
+		p.Node("start", "start")
+		h := p.Node("sub", "SP")
+		h.Sub = &Prog{nflow: 700}
+		h.Sub.Node("start", "hs")
+		h.Sub.Node("task", "T1")
+		t2 := h.Sub.Node("task", "T2")
+		t2.Results = []string{"ok"}
+		h.Sub.Flow("hs", "T1", "")
+		h.Sub.Flow("T1", "T2", "")
+		x := p.Node("xor", "X")
+		p.Node("task", "OK")
+		p.Node("task", "FALLBACK")
+		p.Node("end", "end")
+		p.Flow("start", "SP", "")
+		p.Flow("SP", "X", "")
+		p.Flow("X", "OK", "ok")
+		x.Default = p.Flow("X", "FALLBACK", "").ID
+		p.Flow("OK", "end", "")
+		p.Flow("FALLBACK", "end", "")
+		defs, err := ParseDefs(p.XML(""))
+		must(err)
+		in, err := StartInst(defs, InstOpt{Vars: map[string]any{"ok": false}})
+		must(err)
+		rep.Evaluations++
+		rep.Nontrivial++
+		rep.Count("implicit_end_task")
+		if !in.Answer("T1", tmoStep) || !in.Answer("T2", tmoStep, bpmn.DoWithResults(map[string]any{"ok": true})) {
+			fail(cs, "T1 or T2 not requested", in)
+		} else if !in.Answer("OK", tmoStep) {
+			fail(cs, "T2 answered ok = true: OK was not requested", in)
+		} else if !in.WaitCease(tmoStep) {
+			fail(cs, "the instance did not complete", in)
+		} else if n := countEv(in.Log(), "task", "FALLBACK"); n != 0 {
+			fail(cs, "FALLBACK was requested", in)
+		}
+		in.Close()
+	}
+	{
+		cs := "start -> A -> B, B without outgoing flow, answered with an error and 'retry once', then without error"
+		env.Current(cs)
+		p := &Prog{}
+		p.Node("start", "start")
+		p.Node("task", "A")
+		p.Node("task", "B")
+		p.Flow("start", "A", "")
+		p.Flow("A", "B", "")
+		defs, err := ParseDefs(p.XML(""))
+		must(err)
+		in, err := StartInst(defs, InstOpt{})
+		must(err)
+		rep.Evaluations++
+		rep.Nontrivial++
+		rep.Count("implicit_end_task")
+		ch := make(chan bpmn.ErrHandler, 1)
+		ch <- bpmn.ErrHandler{Mode: bpmn.RetryMode, Retries: 1}
+		if !in.Answer("A", tmoStep) || !in.Answer("B", tmoStep, bpmn.DoWithErrHandle(errors.New("boom"), ch)) {
+			fail(cs, "A or B not requested", in)
+		} else if !in.WaitUntil(tmoStep, func(l []Ev) bool { return countEv(l, "task", "B") >= 2 }) {
+			fail(cs, "B was not requested again after the error answered with 'retry'", in)
+		} else if !in.Answer("B", tmoStep) || !in.WaitCease(tmoStep) {
+			fail(cs, "B answered without error, the instance did not complete", in)
+		} else {
+			errs := 0
+			for _, e := range in.Log() {
+				if e.K == "error" && strings.Contains(e.X, "TaskExecError") {
+					errs++
+				}
+			}
+			if errs != 1 || countEv(in.Log(), "task", "B") != 2 {
+				fail(cs, fmt.Sprintf("%d error traces (expected 1), B requested %d times (expected 2)", errs, countEv(in.Log(), "task", "B")), in)
+			}
 		}
 		in.Close()
 	}
